@@ -163,7 +163,6 @@ fn process_dir(
     let mut walkdir = WalkDir::new(dir)
         .contents_first(config.depth_first)
         .max_depth(config.max_depth)
-        .min_depth(config.min_depth)
         .same_file_system(config.same_file_system)
         .follow_links(config.follow == Follow::Always)
         .follow_root_links(config.follow != Follow::Never);
@@ -186,8 +185,12 @@ fn process_dir(
                 writeln!(&mut stderr(), "Error: {err}").unwrap();
             }
             Ok(entry) => {
-                // WalkDir silently lowers min_depth to max_depth when
-                // min_depth > max_depth; nothing is in range in that case.
+                // -mindepth is applied here rather than by WalkDir: WalkDir
+                // silently lowers min_depth to max_depth when min_depth >
+                // max_depth, and with contents_first it tests a deferred
+                // directory against the wrong depth when the root is a
+                // followed symbolic link (-H), losing directories at exactly
+                // min_depth.
                 if entry.depth() < config.min_depth {
                     continue;
                 }
